@@ -95,32 +95,33 @@ def removeActive (st : State σ τ) (n : Nat) : Except PyErr (State σ τ) :=
   if n ∈ st.active then .ok { st with active := st.active.erase n } else .error .keyError
 
 /-- `handle_crashitem` (dsession.py:435-456): hook first (it may re-queue), then the report is published -/
-def handleCrashItem (I : SchedI σ τ) (st : State σ τ) (n : Nat) (t : τ) (requeue : Bool) : Except PyErr (State σ τ) := do
-  let st1 ← if requeue then (callSched I st (.markPending t)).map (·.1) else pure st
-  pure { st1 with pubs := st1.pubs ++ [.crash n t requeue] }
+def handleCrashItem (I : SchedI σ τ) (st : State σ τ) (n : Nat) (t : τ) (requeue : Bool) : Except PyErr (State σ τ) :=
+  (if requeue then (callSched I st (.markPending t)).map (·.1) else .ok st).map
+    fun st1 => { st1 with pubs := st1.pubs ++ [.crash n t requeue] }
 
 /-- `_clone_node` (dsession.py:386-400) -/
 def cloneNode (st : State σ τ) : State σ τ :=
   { st with active := st.active ++ [st.nextId], nextId := st.nextId + 1, pubs := st.pubs ++ [.spawn st.nextId] }
 
-/-- `worker_errordown` (dsession.py:241-270) -/
-def errordown (I : SchedI σ τ) (st : State σ τ) (n : Nat) (requeue : Bool) : Except PyErr (State σ τ) := do
-  let st0 := { st with pubs := st.pubs ++ [.nodedown n true] }
-  let st1 ← match callSched I st0 (.removeNode n) with
-    | .error .keyError => pure st0                 -- `except KeyError: pass`
-    | .error e => .error e
-    | .ok (st', none) => pure st'
-    | .ok (st', some t) => handleCrashItem I st' n t requeue
+/-- the restart decision of `worker_errordown` (dsession.py:250-269) -/
+def restartOrStop (I : SchedI σ τ) (st1 : State σ τ) (n : Nat) : State σ τ :=
   let failed := st1.failedNodes + 1
   let st2 := { st1 with failedNodes := failed }
-  let st3 :=
-    match st2.maxRestart with
-    | some b =>
-      if (failed : Int) > b then
-        triggerShutdown I { st2 with summary := some (if b = 0 then .disabled n else .maximum b) }
-      else cloneNode { st2 with shuttingdown := false }
-    | none => cloneNode { st2 with shuttingdown := false }
-  removeActive st3 n
+  match st2.maxRestart with
+  | some b =>
+    if (failed : Int) > b then
+      triggerShutdown I { st2 with summary := some (if b = 0 then .disabled n else .maximum b) }
+    else cloneNode { st2 with shuttingdown := false }
+  | none => cloneNode { st2 with shuttingdown := false }
+
+/-- `worker_errordown` (dsession.py:241-270) -/
+def errordown (I : SchedI σ τ) (st : State σ τ) (n : Nat) (requeue : Bool) : Except PyErr (State σ τ) :=
+  let st0 := { st with pubs := st.pubs ++ [.nodedown n true] }
+  match callSched I st0 (.removeNode n) with
+  | .error .keyError => removeActive (restartOrStop I st0 n) n                 -- `except KeyError: pass`
+  | .error e => .error e
+  | .ok (st', none) => removeActive (restartOrStop I st' n) n
+  | .ok (st', some t) => (handleCrashItem I st' n t requeue).bind fun st1 => removeActive (restartOrStop I st1 n) n
 
 /-- `worker_workerfinished` (dsession.py:192-221) -/
 def workerfinished (I : SchedI σ τ) (st : State σ τ) (n exitstatus : Nat) (sf ss : Option String) :
@@ -146,9 +147,8 @@ def workerfinished (I : SchedI σ τ) (st : State σ τ) (n exitstatus : Nat) (s
 def collectionfinish (I : SchedI σ τ) (st : State σ τ) (n : Nat) (ids : List τ) : Except PyErr (State σ τ) :=
   if st.shuttingdown then .ok st
   else if n ∉ I.nodes st.sched then .ok st
-  else do
-    let (st1, _) ← callSched I st (.addNodeCollection n ids)
-    if I.collectionIsCompleted st1.sched then (callSched I st1 .schedule).map (·.1) else pure st1
+  else (callSched I st (.addNodeCollection n ids)).bind fun r =>
+    if I.collectionIsCompleted r.1.sched then (callSched I r.1 .schedule).map (·.1) else .ok r.1
 
 /-- the handler selected by `loop_once` -/
 def handle (I : SchedI σ τ) (st : State σ τ) : Event τ → Except PyErr (State σ τ)
@@ -167,22 +167,25 @@ def handle (I : SchedI σ τ) (st : State σ τ) : Event τ → Except PyErr (St
     else .ok (handleFailures { st with seenCollect := st.seenCollect ++ [key], pubs := st.pubs ++ [.collect key] } failed)
   | .other => .ok st
 
+/-- what follows the handler inside `loop_once` (`tests_finished`) and in the run loop (`if self.shouldstop`) -/
+def afterHandler (I : SchedI σ τ) (st1 : State σ τ) : State σ τ :=
+  let st2 := if I.testsFinished st1.sched then triggerShutdown I st1 else st1
+  if st2.shouldstop.isSome then triggerShutdown I st2 else st2
+
 /-- `loop_once` (dsession.py:146-166) followed by the `if self.shouldstop` of the run loop (137-140) -/
 def loopOnce (I : SchedI σ τ) (st : State σ τ) (ev : Event τ) : Except PyErr (State σ τ) :=
   if st.active.isEmpty then .error .runtime       -- "Unexpectedly no active workers available"
-  else do
-    let st1 ← handle I st ev
-    let st2 := if I.testsFinished st1.sched then triggerShutdown I st1 else st1
-    pure (if st2.shouldstop.isSome then triggerShutdown I st2 else st2)
+  else (handle I st ev).map (afterHandler I)
 
 /-- the run loop: events are processed while the session is not finished -/
 def runLoop (I : SchedI σ τ) (st : State σ τ) : List (Event τ) → Except PyErr (State σ τ)
   | [] => .ok st
   | ev :: rest =>
     if sessionFinished st then .ok st
-    else do
-      let st' ← loopOnce I st ev
-      runLoop I st' rest
+    else
+      match loopOnce I st ev with
+      | .error e => .error e
+      | .ok st' => runLoop I st' rest
 
 /-- how `pytest_runtestloop` ends once `session_finished` holds -/
 inductive Outcome where
